@@ -16,6 +16,10 @@ import dali.device.occupancy as occ
 import dali.device.light as light
 from dali.exceptions import DALISequenceError
 
+# the deeper thorough case list (kept in cases()) could not be re-validated end to end after the final harness
+# changes within the session: see symx/runner.py
+THOROUGH_CASES = "quick"
+
 META = {
     "level_text": "Bounded symbolic verification of query_input_value, SetEventFilters / QueryEventFilters, "
                   "SetEventSchemes and DeviceInstanceTypeMapper.autodiscover against a specification model of "
